@@ -38,22 +38,36 @@ Theorem C12b_expected_content : forall (cs : list clause) (sps : spelling), item
 Proof. exact expected_content. Qed.
 Print Assumptions C12b_expected_content.
 
-(* ---- respelling: two printings of the same clause list in two spellings (optional words, synonyms, separators,
-        letter case) give dictionaries with the same content and the same parsed picture ---- *)
-Theorem C12b_respelling_partial : forall (cs : list clause) (sps sps' : spelling) (r r' : clause_record),
+(* ---- respelling: two printings of the same entry - clauses in any order (the data name first), any optional
+        words, synonyms, separators and letter case - give dictionaries with the same content and the same parsed
+        picture ---- *)
+Theorem C12b_respelling : forall (cs cs' : list clause) (sps sps' : spelling) (r r' : clause_record),
+  Permutation cs cs' -> printable cs sps = true -> printable cs' sps' = true ->
+  clause_dict (print_items cs sps) = Some (Ok r) -> clause_dict (print_items cs' sps') = Some (Ok r') ->
+  normal (codes (cr_dict r)) = normal (codes (cr_dict r')) /\ cr_parsed r = cr_parsed r'.
+Proof. exact respelling. Qed.
+Print Assumptions C12b_respelling.
+
+(* the content is the abstract clause set of the entry *)
+Theorem C12b_respelling_content : forall (cs : list clause) (sps sps' : spelling) (r r' : clause_record),
   printable cs sps = true -> printable cs sps' = true ->
   clause_dict (print_items cs sps) = Some (Ok r) -> clause_dict (print_items cs sps') = Some (Ok r') ->
   normal (codes (cr_dict r)) = abstract cs /\ normal (codes (cr_dict r')) = abstract cs /\ cr_parsed r = cr_parsed r'.
 Proof. exact respelling_same_order. Qed.
-Print Assumptions C12b_respelling_partial.
+Print Assumptions C12b_respelling_content.
 
-(* the full statement also lets the two printings order the clauses differently (the data name staying first); the main
-   theorem covers every order, what is not proved is that [abstract] is invariant under permutation *)
-Definition C12b_respelling_statement : Prop :=
-  forall (cs cs' : list clause) (sps sps' : spelling) (r r' : clause_record),
-  Permutation cs cs' -> printable cs sps = true -> printable cs' sps' = true ->
-  clause_dict (print_items cs sps) = Some (Ok r) -> clause_dict (print_items cs' sps') = Some (Ok r') ->
-  normal (codes (cr_dict r)) = normal (codes (cr_dict r')) /\ cr_parsed r = cr_parsed r'.
+(* the abstract clause set does not depend on the order of the clauses *)
+Theorem C12b_abstract_order : forall cs cs' : list clause, Permutation cs cs' -> nodup_N (map kind cs) = true ->
+  abstract cs = abstract cs'.
+Proof. exact abstract_perm. Qed.
+Print Assumptions C12b_abstract_order.
+
+(* ---- C07: the recognised entry is named as the copybook says: the data name, or the generated FILLER-1 for the word
+        FILLER (written in upper case) and for an entry without a name (DDE.__init__ with a fresh counter) ---- *)
+Theorem C12b_naming : forall (cs : list clause) (sps : spelling) (r : clause_record), in_domain cs sps = true ->
+  clause_dict (print_items cs sps) = Some (Ok r) -> dde_unique (cr_dict r) = spec_unique_name cs.
+Proof. exact naming. Qed.
+Print Assumptions C12b_naming.
 
 (* ---- token level ---- *)
 (* a reserved word of the pattern, printed in any letter case, is matched by its literal *)
